@@ -1,5 +1,11 @@
 # Per-property rows merged into gen_manifest.py's table.
 CHECKS = {
+ "C07": dict(engine="pipesim", cat="fault_enumeration", ref="§6.3",
+   text="Fault = the user function returning an error. Every subset of failing positions for small inputs (complete for n <= 4, thorough n <= 6) x {Map,FMap,Emit,Unfold} x {Lift,Try} x capacities x base schedules x consumer orders is simulated, plus seeded random longer inputs and failure patterns under all scheduling policies. Oracles are exact: values, errors (identity, order, exactly once), which elements the function was applied to (nothing processed after a fail-fast error), closure of both channels, no blocked library goroutine.",
+   technique="deterministic simulation with fault injection: exhaustive failing-position subsets x seeded schedules of the instrumented real stages; exact list-model oracle"),
+ "C08": dict(engine="pipesim", cat="exploration", ref="§6.4",
+   text="Seeded simulation of the real pump goroutine and queue (sync.Pool replaced by a deterministic free list with injectable eviction) with 1-3 senders and 1-2 receivers: cancel swept over every step for small shapes, random cancel/close-by-sender/abandonment/bursts otherwise. Oracles: senders never blocked, online FIFO + no duplicate + nothing invented, porcupine linearizability against a sequential FIFO queue, completeness of delivery after cancel and after sender close, no library panic.",
+   technique="deterministic simulation with fault injection; history checked online and with porcupine (linearizability vs FIFO queue model)"),
  "C06": dict(engine="pipesim", cat="fault_enumeration", ref="§6.2",
    text="Fault enumeration inside the deterministic simulator: for every stage x capacity x small input x base schedule the fault-free run is re-run with the cancel injected before every scheduler step and with every consumer walking away after every element count (complete for that sub-space), plus seeded random plans mixing cancel (step / virtual time / at quiescence), abandonment, never-closing inputs, stalls and select arbitration. Oracles: no library panic, online prefix of the uncancelled result, closure and goroutine exit after close+drain, and after cancel+close with nobody receiving.",
    technique="deterministic simulation with fault injection: cancel/abandon swept over every step of seeded schedules of the instrumented real stages; prefix + closure + leak oracles"),
